@@ -768,12 +768,30 @@ func checkMatchAllTree(c *Check) {
 					piece := vSub(pathP, linSum(0, vIs(nextPhi)), linSum(0, vIs(nextPhi), idxCall))
 					if vConcat(vIs(segPhi), vConstStr("/"), piece)(e) {
 						st = true
+					} else if p.windowFacts()[fn] && nextStep != nil {
+						// re-sliced up to the new cursor: path[next0-1-len(segment0) : newCursor-1] (window fact)
+						want := linOf(nextStep).plus(lin{k: 1}, -1)
+						if sub := subOf(e); sub.base != nil && pathP(sub.base) && sub.hi != nil && sub.hi.equal(want) && linForm(-1, []VM{nextP}, []VM{vLen(segP)})(sub.lo) {
+							st = true
+						}
 					}
 				}
 			}
 			okSeg = i0 && st
 		}
+		sliced := false
+		if !okSeg && p.windowFacts()[fn] {
+			// cut out of the path: path[next0-1-len(segment0) : cursor-1]. By the window fact the text starts where
+			// the first segment starts; by the cursor step (checked above) it ends before the '/' in front of the
+			// cursor: what the accumulation would have built
+			if vSub(pathP, linForm(-1, []VM{nextP}, []VM{vLen(segP)}), linSum(-1, vIs(nextPhi)))(mu.Value) {
+				okSeg, sliced = true, true
+			}
+		}
 		c.Cond(okSeg, key+":accumulate", p.Pos(mu.Pos()), "captured = φ(segment, captured + \"/\" + path[cursor:cursor+i])", "the captured value is not the accumulated segments: "+vstr(mu.Value))
+		if sliced {
+			segPhi = nextPhi // the iteration's state is the cursor alone
+		}
 		// at every success return of an iteration the bind holds this iteration's
 		// accumulated segment (storing it earlier is harmless: Params may keep stale
 		// values of abandoned branches by documented contract)
